@@ -33,7 +33,9 @@ EXPLANATION = (
     "every internal key net['_...'] is a write. (R12.3) each concrete component's create_pit_*_entries executes the "
     "full-slice initialisation pit[:, :] = row template before any column write of its rows. (R12.4) no call into "
     "random/time/uuid/secrets/os.urandom and no iteration over a set is reachable from pipeflow (a positive fixture "
-    "proves the detector). Not decided: bit-identity of two runs; equality of mode='heat' continuation with "
+    "proves the detector). (R12.5, shared with C07 R7.3) hydraulics() and bidirectional() start from an empty net['_internal_data'] "
+    "whenever reuse_internal_data is off and remove it at the end unless it is on, so the cached matrix structure of an "
+    "earlier call never reaches a later one. Not decided: bit-identity of two runs; equality of mode='heat' continuation with "
     "'sequential'.")
 ASSUMPTIONS = ["pandas .values / column access may return views (treated as aliases)", "boolean and integer-array indexing copy",
                "transient=False", "components registered at run time by user code are outside the tree"]
@@ -458,4 +460,12 @@ def r12_5(run):
     run.obs = [o for o in run.obs if o["rule"] != "R14.2" or True]
 
 
-RULES = [("R12.1", r12_1), ("R12.2", r12_2), ("R12.3", r12_3), ("R12.4", r12_4)]
+def r12_5(run):
+    """history independence of the cached matrix structure: whatever an earlier call left in net['_internal_data'], a call
+    without reuse_internal_data starts from an empty entry (shared with C07 R7.3)"""
+    from .c07 import internal_data_lifecycle
+    internal_data_lifecycle(run)
+    run.floor(4)
+
+
+RULES = [("R12.1", r12_1), ("R12.2", r12_2), ("R12.3", r12_3), ("R12.4", r12_4), ("R12.5", r12_5)]
